@@ -14,6 +14,9 @@ from props.c04 import TRUST
 
 
 def run(ses):
+    from pyvc import frame as _frame
+
+    _frame.purity_obligation(ses)
     quick = ses.tier == "quick"
     units = ("image10q", "image11q") if quick else ("image10", "image11")
     table_of = {u: u.rstrip("q") + "s" if quick else u + "s" for u in units}
